@@ -706,6 +706,25 @@ func mayBeSuccessOrigin(fn *ssa.Function, ret *ssa.Return, v ssa.Value, conv Con
 					}
 				}
 			}
+			if !same {
+				// the test is made on the merged variable that carries v to the return (`x, err = f()` in the arms of a
+				// switch, `if err != nil { return err }` behind it): the returned value is that phi
+				if ph, ok := f.Subject.(*ssa.Phi); ok {
+					returned := false
+					for _, res := range ret.Results {
+						if res == ssa.Value(ph) {
+							returned = true
+						}
+					}
+					if returned {
+						for _, e := range ph.Edges {
+							if Strip(e) == Strip(v) || e == v {
+								same = true
+							}
+						}
+					}
+				}
+			}
 			if f.Kind != want || !same {
 				return false
 			}
